@@ -251,7 +251,11 @@ func (b *Body) callResults(v ssa.Value) []*Val {
 // region (type-wide), or "*name"/"name[]" designating an argument's cell.
 func (b *Body) havocForCall(m string, args []*Val, blk *ssa.BasicBlock, st State) {
 	ft := b.ft
+	old := ft.region(st, m)
 	ft.havocRegion(st, m)
+	if ft.e.prelude.Monotone[m] {
+		ft.fact(A(">=", st[m], old))
+	}
 	b.recordWrite(blk, m, nil)
 }
 
